@@ -276,6 +276,8 @@ func (x *X) external(fr *Frame, st *State, fn *ssa.Function, args []SV, cc *ssa.
 		return []SV{x.newError(nil)}
 	case "errors.Is":
 		return []SV{x.errorsIs(argT(0), argT(1))}
+	case "strconv.FormatBool":
+		return []SV{mkIte(argT(0), x.enc.strLit("true"), x.enc.strLit("false"))}
 	case "fmt.Sprintf", "fmt.Sprint", "fmt.Sprintln":
 		r := x.vc.fresh("sprintf", SStr)
 		x.vc.assume(x.ile(x.ic(0), app(isz, "strlen", r)))
